@@ -33,9 +33,6 @@ namespace rkcommon {
     template struct aligned_allocator<float, 16>;
     template struct aligned_allocator<int64_t, 128>;
     template struct aligned_allocator<c14::S24, 4096>;
-    // the hinted overload is a member template
-    template int *aligned_allocator<int, 64>::allocate<void>(const size_t, const void *) const;
-    template c14::S24 *aligned_allocator<c14::S24, 4096>::allocate<char>(const size_t, const char *) const;
   }  // namespace containers
   namespace memory {
     template char *alignedMalloc<char>(size_t, size_t);
@@ -46,6 +43,18 @@ namespace rkcommon {
     template c14::A64 *alignedMalloc<c14::A64>(size_t, size_t);
   }  // namespace memory
 }  // namespace rkcommon
+
+// The hinted allocate(n, hint) is used through calls only, so that this driver compiles whether the hint overload is a
+// member template, a separate overload or a defaulted parameter of the one allocate().
+int *c14_hinted_int(const rkcommon::containers::aligned_allocator<int, 64> &a, const void *hint)
+{
+  return a.allocate(3, hint);
+}
+
+c14::S24 *c14_hinted_s24(const rkcommon::containers::aligned_allocator<c14::S24, 4096> &a, const char *hint)
+{
+  return a.allocate(3, hint);
+}
 
 bool c14_is_aligned(void *p)
 {
